@@ -181,7 +181,29 @@ impl StorageEngine {
         let shard_idx = self.get_shard_index(key);
         #[cfg(feature = "verif")]
         crate::verif::yield_point(crate::verif::site::SHARD, db as u64, shard_idx as u64);
-        Ok(&database.shards[shard_idx])
+        let shard = &database.shards[shard_idx];
+        self.expire_if_due(shard, key);
+        Ok(shard)
+    }
+    
+    /// Lazy expiration: a key whose deadline has passed is removed before any operation looks
+    /// at it, so it is absent to every command whether or not the sweeper has run yet.
+    fn expire_if_due(&self, shard: &RwLock<DatabaseShard>, key: &[u8]) {
+        let due = {
+            let shard_guard = shard.read().unwrap();
+            shard_guard.data.get(key).map_or(false, |stored_value| stored_value.is_expired())
+        };
+        if due {
+            let mut shard_guard = shard.write().unwrap();
+            if shard_guard.data.get(key).map_or(false, |stored_value| stored_value.is_expired()) {
+                if let Some(stored_value) = shard_guard.data.remove(key) {
+                    shard_guard.expiring_keys.remove(key);
+                    shard_guard.mark_modified(key);
+                    let memory_size = self.calculate_value_size(key, &stored_value.value);
+                    self.memory_manager.remove_memory(memory_size);
+                }
+            }
+        }
     }
     
     /// Set a string value
@@ -441,7 +463,11 @@ impl StorageEngine {
         // Collect keys from all shards
         for shard in &database.shards {
             let shard_guard = shard.read().unwrap();
-            for key in shard_guard.data.keys() {
+            for (key, stored_value) in shard_guard.data.iter() {
+                // keys past their deadline are logically absent even if not swept yet
+                if stored_value.is_expired() {
+                    continue;
+                }
                 all_keys.push(key.clone());
             }
         }
@@ -2044,7 +2070,10 @@ impl StorageEngine {
         // Collect keys from all shards
         for shard in &database.shards {
             let shard_guard = shard.read().unwrap();
-            for key in shard_guard.data.keys() {
+            for (key, stored_value) in shard_guard.data.iter() {
+                if stored_value.is_expired() {
+                    continue;
+                }
                 let key_str = String::from_utf8_lossy(key);
                 if pattern_matches(&pattern_str, &key_str) {
                     matching_keys.push(key.clone());
